@@ -356,3 +356,219 @@ Lemma c13_repaired_on_witness :
   c13_lat_hi (c13_bounds_repaired P H c13_witness) = 63434949.
 Proof. vm_compute. split; reflexivity. Qed.
 
+(* ------------------------------------------------------------------------------------------ *)
+(* pole branches                                                                                *)
+
+Section Pole.
+  Variables P H : Z.
+  Hypothesis HP : 0 < P.
+  Hypothesis HH : 0 < H.
+  Hypothesis HF : FILL < - H.
+
+  (* inserting the pole point [+-H, FILL] touches one latitude bound only *)
+  Lemma c13_insert_pole_point b (north : bool) :
+    c13_lat_ok b ->
+    let b' := c13_insert P H b (if north then H else - H) FILL in
+    c13_lon_lo b' = c13_lon_lo b /\ c13_lon_hi b' = c13_lon_hi b /\
+    c13_lat_lo b' <> FILL /\ c13_lat_hi b' <> FILL /\
+    (north = true -> c13_lat_hi b' = H /\ (c13_lat_lo b <> FILL -> c13_lat_lo b' = c13_lat_lo b)) /\
+    (north = false -> c13_lat_lo b' = - H /\ (c13_lat_hi b <> FILL -> c13_lat_hi b' = c13_lat_hi b)).
+  Proof.
+    intros Hok. pose proof c13_FILL_neg as HFn. cbv zeta.
+    assert (EN : c13_norm P FILL = FILL) by (unfold c13_norm; rewrite Z.eqb_refl; reflexivity).
+    unfold c13_insert. rewrite EN. unfold c13_lat_ok in Hok.
+    destruct north.
+    - assert (E0 : ((H =? FILL) && (FILL =? FILL)) = false) by lia.
+      assert (E1 : ((FILL =? FILL) && ((H =? H) || (H =? - H))) = true) by lia.
+      assert (E2 : (H =? H) = true) by lia.
+      rewrite E0, E1, E2.
+      destruct ((c13_lat_lo b =? FILL) && (c13_lat_hi b =? FILL)) eqn:U;
+      destruct ((c13_lon_lo b =? FILL) && (c13_lon_hi b =? FILL)) eqn:V;
+      cbn [c13_lat_lo c13_lat_hi c13_lon_lo c13_lon_hi]; repeat split; try lia; intros; try lia.
+    - assert (E0 : ((- H =? FILL) && (FILL =? FILL)) = false) by lia.
+      assert (E1 : ((FILL =? FILL) && ((- H =? H) || (- H =? - H))) = true) by lia.
+      assert (E2 : (- H =? H) = false) by lia.
+      rewrite E0, E1, E2.
+      destruct ((c13_lat_lo b =? FILL) && (c13_lat_hi b =? FILL)) eqn:U;
+      destruct ((c13_lon_lo b =? FILL) && (c13_lon_hi b =? FILL)) eqn:V;
+      cbn [c13_lat_lo c13_lat_hi c13_lon_lo c13_lon_hi]; repeat split; try lia; intros; try lia.
+  Qed.
+
+  Definition c13_pinv (north : bool) (b : c13_box) (seen : list c13_edge) : Prop :=
+    c13_lon_ok P b /\ c13_lat_ok b /\
+    (seen <> [] -> c13_lon_init b /\ c13_lat_lo b <> FILL /\ c13_lat_hi b <> FILL /\
+                   (if north then c13_lat_hi b = H else c13_lat_lo b = - H)) /\
+    (forall e, In e seen ->
+       c13_lon1 e <> FILL /\ c13_lon_in b (c13_norm P (c13_lon1 e)) = true /\
+       (if north then c13_lat_lo b <= c13_lat1 e /\ c13_lat_lo b <= c13_emin e
+        else c13_lat1 e <= c13_lat_hi b /\ c13_emax e <= c13_lat_hi b)).
+
+  Lemma c13_pole_step north b c seen e :
+    c13_edge_ok H e -> c13_pinv north b seen ->
+    c13_pinv north (fst (c13_step_pole P H north (b, c) e)) (seen ++ [e]) /\
+    snd (c13_step_pole P H north (b, c) e) = (c && negb (c13_pole_here e)).
+  Proof.
+    intros Eok (Lok & Tok & Hne & Hall).
+    destruct (c13_edge_ok_regular H e HF Eok) as ([R1a R1b] & [R2a R2b] & [R3a R3b]). cbn [fst snd] in *.
+    unfold c13_edge_ok in Eok.
+    unfold c13_step_pole.
+    (* the optional pole point *)
+    set (b0 := if c13_pole_here e then c13_insert P H b (if north then H else - H) FILL else b).
+    assert (B0 : c13_lon_lo b0 = c13_lon_lo b /\ c13_lon_hi b0 = c13_lon_hi b /\ c13_lat_ok b0 /\
+                 (north = true -> c13_lat_lo b <> FILL -> c13_lat_lo b0 = c13_lat_lo b) /\
+                 (north = false -> c13_lat_hi b <> FILL -> c13_lat_hi b0 = c13_lat_hi b)).
+    { unfold b0. destruct (c13_pole_here e).
+      - destruct (c13_insert_pole_point b north Tok) as (A1 & A2 & A3 & A4 & A7 & A8). cbv zeta in *.
+        repeat split; auto; try (right; split; assumption); intros Hn Hx.
+        + apply (A7 Hn); exact Hx.
+        + apply (A8 Hn); exact Hx.
+      - repeat split; auto. }
+    destruct B0 as (B1 & B2 & B3 & B4 & B5).
+    assert (Lok0 : c13_lon_ok P b0) by (unfold c13_lon_ok in *; rewrite B1, B2; exact Lok).
+    (* insertion of the node *)
+    pose proof (c13_insert_lon P H HP HH HF b0 (c13_lat1 e) (c13_lon1 e) R1b Lok0) as (L1 & L2 & L3). cbv zeta in L1, L2, L3.
+    pose proof (c13_insert_lat P H HP HH HF b0 (c13_lat1 e) (c13_lon1 e) R1b R1a) as (T1 & T2 & T3 & T4 & T5). cbv zeta in T1, T2, T3, T4, T5.
+    pose proof (c13_insert_lat_ok P H HP HH HF b0 (c13_lat1 e) (c13_lon1 e) R1b R1a B3) as (N1 & N2).
+    set (b1 := c13_insert P H b0 (c13_lat1 e) (c13_lon1 e)) in *.
+    assert (Lok1 : c13_lon_ok P b1) by (right; exact L1).
+    assert (Tok1 : c13_lat_ok b1) by (right; split; assumption).
+    set (x := if north then c13_emin e else c13_emax e).
+    assert (Rx : x <> FILL) by (unfold x; destruct north; assumption).
+    pose proof (c13_insert_lon P H HP HH HF b1 x (c13_lon1 e) R1b Lok1) as (M1 & M2 & M3). cbv zeta in M1, M2, M3.
+    pose proof (c13_insert_lat P H HP HH HF b1 x (c13_lon1 e) R1b Rx) as (S1 & S2 & S3 & S4 & S5). cbv zeta in S1, S2, S3, S4, S5.
+    pose proof (c13_insert_lat_ok P H HP HH HF b1 x (c13_lon1 e) R1b Rx Tok1) as (Q1 & Q2).
+    set (b2 := c13_insert P H b1 x (c13_lon1 e)) in *.
+    assert (Init1 : c13_lon_init b1) by (unfold c13_lon_init; lia).
+    assert (Res : c13_step_pole P H north (b, c) e =
+                  (if north then c13_set_lat_hi b2 H else c13_set_lat_lo b2 (- H), c && negb (c13_pole_here e))).
+    { unfold c13_step_pole, b2, b1, b0, x. destruct (c13_pole_here e), north, c; reflexivity. }
+    unfold c13_step_pole in Res. rewrite Res. cbn [fst snd]. split; [|reflexivity].
+    assert (Xn : north = true -> x = c13_emin e) by (intros ->; reflexivity).
+    assert (Xs : north = false -> x = c13_emax e) by (intros ->; reflexivity).
+    clear Res. clearbody b2. clearbody b1. clearbody x. clearbody b0.
+    assert (Lon_e : c13_lon_in b2 (c13_norm P (c13_lon1 e)) = true) by exact M2.
+    assert (Lon_old : forall q, In q seen -> c13_lon_in b2 (c13_norm P (c13_lon1 q)) = true).
+    { intros q Hq. destruct (Hall q Hq) as [Rq [A _]].
+      assert (Hs : seen <> []) by (intros E; rewrite E in Hq; destruct Hq).
+      destruct (Hne Hs) as (I0 & _).
+      assert (A0 : c13_lon_in b0 (c13_norm P (c13_lon1 q)) = true) by (unfold c13_lon_in in *; rewrite B1, B2; exact A).
+      assert (I00 : c13_lon_init b0) by (unfold c13_lon_init in *; rewrite B1, B2; exact I0).
+      pose proof (c13_norm_range P (c13_lon1 q) HP Rq) as Hr.
+      apply M3; auto. }
+    pose proof c13_FILL_neg as HFn.
+    assert (HnF : H <> FILL /\ - H <> FILL) by (clear - HF HH HFn; lia).
+    destruct north.
+    - (* north: upper bound forced to H *)
+      specialize (Xn eq_refl).
+      unfold c13_pinv, c13_set_lat_hi, c13_lon_ok, c13_lat_ok, c13_lon_init.
+      cbn [c13_lat_lo c13_lat_hi c13_lon_lo c13_lon_hi].
+      split; [right; exact M1|]. split; [right; split; [exact Q1|tauto]|].
+      split; [intros _; split; [clear - M1; lia|]; split; [exact Q1|]; split; [tauto|reflexivity]|].
+      intros q Hq. apply in_app_or in Hq. destruct Hq as [Hq|[<-|[]]].
+      + destruct (Hall q Hq) as [Rq [_ [A1 A2]]].
+        split; [exact Rq|]. split; [unfold c13_lon_in; cbn [c13_lon_lo c13_lon_hi]; apply Lon_old; exact Hq|].
+        assert (Hs : seen <> []) by (intros E; rewrite E in Hq; destruct Hq).
+        destruct (Hne Hs) as (_ & I1 & I2 & _).
+        specialize (B4 eq_refl I1).
+        assert (X0 : c13_lat_lo b0 <> FILL) by (rewrite B4; exact I1).
+        specialize (T2 X0). specialize (S2 N1).
+        clear - A1 A2 B4 T2 S2. lia.
+      + split; [exact R1b|]. split; [unfold c13_lon_in; cbn [c13_lon_lo c13_lon_hi]; exact Lon_e|].
+        specialize (S2 N1). clear - S1 S2 T1 Xn Eok. lia.
+    - specialize (Xs eq_refl).
+      unfold c13_pinv, c13_set_lat_lo, c13_lon_ok, c13_lat_ok, c13_lon_init.
+      cbn [c13_lat_lo c13_lat_hi c13_lon_lo c13_lon_hi].
+      split; [right; exact M1|]. split; [right; split; [tauto|exact Q2]|].
+      split; [intros _; split; [clear - M1; lia|]; split; [tauto|]; split; [exact Q2|reflexivity]|].
+      intros q Hq. apply in_app_or in Hq. destruct Hq as [Hq|[<-|[]]].
+      + destruct (Hall q Hq) as [Rq [_ [A1 A2]]].
+        split; [exact Rq|]. split; [unfold c13_lon_in; cbn [c13_lon_lo c13_lon_hi]; apply Lon_old; exact Hq|].
+        assert (Hs : seen <> []) by (intros E; rewrite E in Hq; destruct Hq).
+        destruct (Hne Hs) as (_ & I1 & I2 & _).
+        specialize (B5 eq_refl I2).
+        assert (X0 : c13_lat_hi b0 <> FILL) by (rewrite B5; exact I2).
+        specialize (T3 X0). specialize (S3 N2).
+        clear - A1 A2 B5 T3 S3. lia.
+      + split; [exact R1b|]. split; [unfold c13_lon_in; cbn [c13_lon_lo c13_lon_hi]; exact Lon_e|].
+        specialize (S3 N2). clear - S1 S3 T1 Xs Eok. lia.
+  Qed.
+
+  Lemma c13_pinv_empty north : c13_pinv north c13_empty [].
+  Proof.
+    unfold c13_pinv, c13_lon_ok, c13_lat_ok, c13_empty. cbn [c13_lon_lo c13_lon_hi c13_lat_lo c13_lat_hi].
+    split; [left; split; reflexivity|]. split; [left; split; reflexivity|].
+    split; [intros E; contradiction|]. intros e [].
+  Qed.
+
+  Lemma c13_pole_fold north es : forall b c seen,
+    Forall (c13_edge_ok H) es -> c13_pinv north b seen ->
+    c13_pinv north (fst (fold_left (c13_step_pole P H north) es (b, c))) (seen ++ es) /\
+    snd (fold_left (c13_step_pole P H north) es (b, c)) = (c && forallb (fun e => negb (c13_pole_here e)) es).
+  Proof.
+    induction es as [|e es IH]; intros b c seen Hok Hinv.
+    - cbn [fold_left fst snd forallb]. rewrite app_nil_r, andb_true_r. split; [exact Hinv|reflexivity].
+    - inversion Hok as [|? ? He Hrest]; subst.
+      cbn [fold_left forallb].
+      destruct (c13_pole_step north b c seen e He Hinv) as [I1 I2].
+      destruct (c13_step_pole P H north (b, c) e) as [b1 c1] eqn:E. cbn [fst snd] in I1, I2.
+      destruct (IH b1 c1 (seen ++ [e]) Hrest I1) as [J1 J2].
+      rewrite <- app_assoc in J1. cbn [app] in J1. split; [exact J1|].
+      rewrite J2, I2, andb_assoc. reflexivity.
+  Qed.
+
+  (* pole branch: the enclosed pole's latitude is reported; every corner latitude and the far extreme of every edge
+     are enclosed; when the pole point is on no edge (pole strictly inside) the full longitude circle [0, P] is
+     reported, otherwise every corner longitude is inside the reported interval *)
+  Lemma c13_pole_spec north es :
+    es <> [] -> Forall (c13_edge_ok H) es ->
+    let b := c13_bounds_pole P H north es in
+    (if north then c13_lat_hi b = H else c13_lat_lo b = - H) /\
+    (forall e, In e es ->
+       if north then c13_lat_lo b <= c13_lat1 e /\ c13_lat_lo b <= c13_emin e
+       else c13_lat1 e <= c13_lat_hi b /\ c13_emax e <= c13_lat_hi b) /\
+    (forallb (fun e => negb (c13_pole_here e)) es = true -> c13_lon_lo b = 0 /\ c13_lon_hi b = P) /\
+    (forallb (fun e => negb (c13_pole_here e)) es = false ->
+       forall e, In e es -> c13_lon_in b (c13_norm P (c13_lon1 e)) = true).
+  Proof.
+    intros Hne Hok. cbv zeta. unfold c13_bounds_pole.
+    destruct (c13_pole_fold north es c13_empty true [] Hok (c13_pinv_empty north)) as [J1 J2].
+    destruct (fold_left (c13_step_pole P H north) es (c13_empty, true)) as [b c] eqn:E.
+    cbn [fst snd app] in J1, J2. cbn [andb] in J2.
+    destruct J1 as (Lok & Tok & Hn & Hall). destruct (Hn Hne) as (I0 & I1 & I2 & I3).
+    rewrite J2.
+    destruct (forallb (fun e => negb (c13_pole_here e)) es) eqn:F.
+    - unfold c13_set_lon. cbn [c13_lat_lo c13_lat_hi c13_lon_lo c13_lon_hi].
+      split; [exact I3|]. split; [intros e He; destruct (Hall e He) as (_ & _ & X); exact X|].
+      split; [intros _; split; reflexivity|]. intros X; discriminate.
+    - split; [exact I3|]. split; [intros e He; destruct (Hall e He) as (_ & _ & X); exact X|].
+      split; [intros X; discriminate|]. intros _ e He. destruct (Hall e He) as (_ & X & _). exact X.
+  Qed.
+End Pole.
+
+
+(* ------------------------------------------------------------------------------------------ *)
+(* non-vacuity                                                                                   *)
+
+(* polar cap with corners at latitude 80 and longitudes 5, 95, 185, 275 degrees (unit 1e-6 degree); the great-circle
+   edges dip to 75.99 degrees... the extreme values only have to satisfy c13_edge_ok here *)
+Definition c13_cap : list c13_edge :=
+  map (fun lon => {| c13_lat1 := 80000000; c13_lon1 := lon; c13_lat2 := 80000000; c13_emax := 82873960; c13_emin := 80000000;
+                     c13_c1max := false; c13_c2max := false; c13_c1min := true; c13_c2min := true; c13_pole_here := false |})
+      [5000000; 95000000; 185000000; 275000000].
+
+Example c13_ex_pole :
+  let P := 360000000 in let H := 90000000 in
+  c13_cap <> [] /\ Forall (c13_edge_ok H) c13_cap /\
+  forallb (fun e => negb (c13_pole_here e)) c13_cap = true /\
+  c13_face_bounds P H true false c13_cap =
+    {| c13_lat_lo := 80000000; c13_lat_hi := 90000000; c13_lon_lo := 0; c13_lon_hi := 360000000 |}.
+Proof.
+  cbv zeta. split; [discriminate|]. split; [|split; vm_compute; reflexivity].
+  unfold c13_cap. cbn [map]. repeat constructor; unfold FILL; cbn; lia.
+Qed.
+
+Example c13_ex_insert_wrap :
+  (* the box [350, 10] degrees (wrapping through 0) grows to [340, 10] when 340 is inserted, not to [350, 340] *)
+  let b := {| c13_lat_lo := 0; c13_lat_hi := 10; c13_lon_lo := 350; c13_lon_hi := 10 |} in
+  c13_lon_ok 360 b /\ c13_insert 360 90 b 5 340 = {| c13_lat_lo := 0; c13_lat_hi := 10; c13_lon_lo := 340; c13_lon_hi := 10 |}.
+Proof. cbv zeta. split; [right; cbn; lia | vm_compute; reflexivity]. Qed.
